@@ -84,7 +84,7 @@ pub fn owns_panic(prop: u8, double: bool, op: &'static str, after_special: bool)
         3 => true,
         6 => matches!(op, "sorted" | "sorted_iter"),
         7 => matches!(op, "extend" | "append" | "from_vec" | "from_iter" | "convert" | "ctor"),
-        8 => matches!(op, "retain" | "retain_mut" | "iter_mut" | "pop_if"),
+        8 => matches!(op, "retain" | "retain_mut" | "iter_mut" | "pop_if" | "adaptor_iter_mut"),
         9 => matches!(op, "iter_mut" | "adaptor_iter_mut"),
         11 => matches!(op, "push_increase" | "push_decrease"),
         13 => matches!(op, "iter" | "ref_into_iter" | "into_iter" | "drain" | "sorted_iter" | "adaptor"),
